@@ -47,6 +47,12 @@ meta = {
  },
  "framework": {"check": f"./check {pid} quick", "exit_code": int(rc), "detected": rc == '1', "seconds": int(e), "first_signature": sig},
 }
+# keep the verdicts of earlier versions of the check (a change missed first and caught after strengthening stays visible)
+try:
+    old = json.load(open(out + '/meta.json'))
+    meta["earlier_runs"] = old.get("earlier_runs", []) + [old["framework"]]
+except Exception:
+    pass
 json.dump(meta, open(out + '/meta.json', 'w'), indent=1)
 print(f"{i}-{x}: demo without={meta['confirmed']['demo_without_change']} with={meta['confirmed']['demo_with_change']} suite=[{suite.strip()}] check rc={rc} ({e}s) sig={sig}")
 PY
